@@ -368,6 +368,13 @@ def _worker(prop, part_name, tier, seed, shard, nshards, outdir, scratch):
     finally:
         stats.wall = time.monotonic() - t0
         try:
+            wc = getattr(sys.modules.get(f'props.{prop.lower()}'),
+                         'worker_cleanup', None)
+            if wc is not None:
+                wc()
+        except Exception:
+            pass
+        try:
             _atomic_write(statfile, stats.to_json())
         except Exception:
             pass
